@@ -26,7 +26,7 @@ RULE = (
 )
 ASSUMPTIONS = [
     "kernel isotherms are re-interpolated independently (cubic, with the zero row) from the kernel CSV file",
-    "fit-vs-input tolerance 2e-3 x max loading (calibrated on the repaired tree: all 2395 thorough fits are within 1e-3)",
+    "fit-vs-input tolerance 1e-9 x max loading (the non-negative least squares fit of the repaired tree reproduces every exact combination to 1e-15 x max loading; see table fit_deviation_decade)",
 ]
 NSHARDS = {"quick": 16, "thorough": 16}
 TIMEOUT = {"quick": 280, "thorough": 3300}
@@ -66,9 +66,9 @@ def gen_cases(tier, seed):
     r = gen.rng(seed, "c18")
     n = 40 if tier == "quick" else 2400
     for i in range(n):
-        yield {"kind": "fit", "seed": r.randrange(1 << 30), "order": i % 4, "weights": ["sparse", "dense", "sparse-with-first", "single"][(i // 4) % 4], "kernel": "shipped" if i % 5 else "user", "entry": ["raw", "isotherm"][i % 2]}
-    for i in range(6 if tier == "quick" else 200):
-        yield {"kind": "limits", "seed": r.randrange(1 << 30)}
+        yield {"kind": "fit", "seed": r.randrange(1 << 30), "order": i % 4, "weights": ["sparse", "dense", "sparse-with-first", "single", "decades"][(i // 4) % 5], "kernel": "shipped" if i % 5 else "user", "entry": ["raw", "isotherm"][i % 2]}
+    for i in range(18 if tier == "quick" else 300):
+        yield {"kind": "limits", "seed": r.randrange(1 << 30), "narrow": [None, 1, None, 2, None, 3][i % 6]}
     for i in range(6 if tier == "quick" else 200):
         yield {"kind": "range", "seed": r.randrange(1 << 30)}
     for i in range(4 if tier == "quick" else 100):
@@ -129,6 +129,9 @@ def _weights(r, nw, kind):
     w = numpy.zeros(nw)
     if kind == "dense":
         w = numpy.array([r.uniform(0.0, 0.05) for _ in range(nw)])
+    elif kind == "decades":
+        # contributions spanning six orders of magnitude (a trace of small pores beside dominant large ones)
+        w = numpy.array([10**r.uniform(-7, -1) for _ in range(nw)])
     elif kind == "single":
         w[r.randrange(nw)] = r.uniform(0.05, 0.5)
     else:
@@ -208,7 +211,8 @@ def _run_fit(case, ctx):
     # (3) the fit reproduces an exact combination
     dev = float(numpy.max(numpy.abs(fitted - n)))
     ctx.count("fit_quality", "dev<=%s" % ("1e-3" if dev <= 1e-3 * scale else "5e-3" if dev <= 5e-3 * scale else "2e-2" if dev <= 2e-2 * scale else "worse"))
-    if dev > 2e-3 * scale:
+    ctx.count("fit_deviation_decade", "1e%d x max loading" % (int(math.floor(math.log10(dev / scale))) if dev > 0 else -99))
+    if dev > 1e-9 * scale:
         ctx.violation(key + "/fit-does-not-reproduce-input", "an exact non-negative combination of kernel isotherms is not reproduced within the optimiser tolerance", max_dev=dev, scale=scale, kernel=case["kernel"],
                       weights=case["weights"], npoints=len(p))
     # (4) reported curve: order 0 returns the un-smoothed distribution itself
@@ -240,6 +244,11 @@ def _run_limits(case, ctx):
     p = _grid(r, k, n=r.randint(40, 90))
     n = _synth(k, w, p)
     i0, i1 = r.randint(3, 10), len(p) - r.randint(3, 10)
+    narrow = case.get("narrow")
+    if narrow:
+        # a window holding one, two or three points (the fit needs at least three... whatever it does, points outside stay outside)
+        i0 = r.randint(3, len(p) - 12)
+        i1 = i0 + narrow - 1
     lims = (float((p[i0 - 1] + p[i0]) / 2), float((p[i1] + p[i1 + 1]) / 2))
     kw = dict(material="verif-c18", adsorbate="nitrogen", temperature=77.355, pressure_mode="relative", pressure_unit=None, **{kk: v for kk, v in gen.DEFAULT_UNITS.items() if not kk.startswith("pressure")})
     order = r.randint(0, 3)
@@ -251,6 +260,13 @@ def _run_limits(case, ctx):
     c = _call(pk.psd_dft_kernel_fit, p[i0:i1 + 1], n[i0:i1 + 1], path, order)
     ctx.case(["limits", case["seed"]])
     ctx.count("limits", "judged")
+    if narrow:
+        ctx.count("limits", "narrow-window-%d-points/%s" % (i1 - i0 + 1, a[0] if a[0] == "ok" else type(a[1]).__name__))
+        if a[0] != b[0] or (a[0] == "exc" and type(a[1]) is not type(b[1])):
+            ctx.violation("psd_dft/points-outside-limits-influence-result", "changing points outside a narrow pressure window changes the kind of outcome", a=repr(a[1])[:120], b=repr(b[1])[:120])
+            return
+        if a[0] != "ok":
+            return
     if a[0] != "ok" or b[0] != "ok" or c[0] != "ok":
         ctx.count("refusals", "limits-case")
         return
